@@ -84,11 +84,9 @@ class RobustModel(nn.Module):
             assert len(R)==len(weight)
             weight_diag = []
             for w, r in zip(weight, R):
-                ni = r.numel() * w.shape[-1] / w.numel()
                 w = w.view(*w.shape, 1, 1) if r.shape[-1] == 1 else w
-                ws = w.view(-1, w.shape[-2], w.shape[-1]).split(1, 0)
-                ws = [wsi.squeeze(0) for wsi in ws]
-                weight_diag += ws * int(ni)
+                w = w.expand(r.shape[:-1] + w.shape[-2:])
+                weight_diag += list(w.reshape(-1, w.shape[-2], w.shape[-1]).unbind(0))
             weight_diag = torch.block_diag(*weight_diag)
         R = [r.reshape(-1) for r in R]
         J = torch.cat(J) if isinstance(J, (tuple, list)) else J
